@@ -245,6 +245,22 @@ class Roles:
                 if (re.search(RE_FUTURE_POLL, fn["def"]) or re.search(RE_STREAM_POLL_NEXT, fn["def"])) \
                         and not fn.get("res_local") and not fn.get("local"):
                     out.append((bb, t, fn))
+                elif fn["def"] in ("core::ops::FnMut::call_mut", "core::ops::Fn::call", "core::ops::FnOnce::call_once") and len(t["args"]) == 2 \
+                        and t["dest"].get("ty", "").startswith("core::task::Poll<"):
+                    # a poll function passed as a generic callable PARAMETER: `poll_fn(task, cx)` with
+                    # poll_fn: impl FnMut(Pin<&mut F>, &mut Context) -> Poll<O>; normalised to the fn-pointer view
+                    fl = self.ctx.flow(body)
+                    rcv = strip_refs(fl.operand_expr(t["args"][0]))
+                    tup = t["args"][1]
+                    tty = tup["place"]["ty"] if tup["k"] in ("copy", "move") else tup.get("ty", "")
+                    if rcv[0] == "param" and "core::task::Context" in tty and tup["k"] in ("copy", "move") and not tup["place"]["p"]:
+                        sd = fl.single_def(tup["place"]["l"])
+                        if sd not in (None, "param") and sd[2] == "assign" and sd[3]["rv"]["k"] == "aggregate" and sd[3]["rv"].get("agg") == "tuple" \
+                                and len(sd[3]["rv"]["ops"]) == 2:
+                            t2 = dict(t)
+                            t2["args"] = list(sd[3]["rv"]["ops"])
+                            t2["func"] = t["args"][0]
+                            out.append((bb, t2, None))
         return out
 
     def task_wake_sites(self, body, strict=False):
